@@ -32,7 +32,8 @@ func fixedCacheCases() []*CacheCase {
 
 var fixedPMNames = []string{"tx-batch-of-8", "orphans-5-9-12-then-7", "all-confirms-before-blocks-reverse", "every-block-twice-in-order", "two-orphan-islands-filled-downwards", "remotes-join-and-leave-while-syncing",
 	"confirm-arrives-while-its-block-is-inserted-3ms", "confirm-arrives-while-its-block-is-inserted-8ms", "confirm-arrives-while-its-block-is-inserted-20ms",
-	"copy-of-block-being-drained-heads-a-message-0ms", "copy-of-block-being-drained-heads-a-message-2ms"}
+	"copy-of-block-being-drained-heads-a-message-0ms", "copy-of-block-being-drained-heads-a-message-2ms",
+	"confirm-and-second-copy-arrive-while-the-block-is-inserted"}
 
 func seq(lo, hi int) []int {
 	var out []int
@@ -62,6 +63,8 @@ func fixedPMCase(k, try int, scratch string) (*PMCase, error) {
 		nDep, n = 5, 6
 	case 9, 10:
 		nDep, n = 3, 7
+	case 11:
+		nDep, n = 3, 5
 	}
 	wcfg := fx.WorldCfg{Deputies: nDep, Users: 6, SlotMs: 10000}
 	w := fx.NewWorld(wcfg)
@@ -71,7 +74,7 @@ func fixedPMCase(k, try int, scratch string) (*PMCase, error) {
 		sp.Dt = append(sp.Dt, []int{5, 3, 11, 2, 25, 7}[i%6])
 		sp.TxsPer = append(sp.TxsPer, (i+try)%3)
 	}
-	if k == 9 || k == 10 {
+	if k == 9 || k == 10 || k == 11 {
 		sp.TxsPer[4] = 40 // block 5 takes a while to verify
 	}
 	blocks, sigs, err := mineSegment(w, fx.PathOf(scratch, fmt.Sprintf("mine-fixed-%d", k)), sp)
@@ -239,6 +242,21 @@ func fixedPMCase(k, try int, scratch string) (*PMCase, error) {
 		for h := 1; h <= n; h++ {
 			cs.Steps = append(cs.Steps, confirmsOf(h%2, h)...)
 		}
+	case 11:
+		// The top block 5 is inserted by the drain (slowly). Meanwhile its only confirm arrives (and is
+		// cached: the block is not visible yet) and then another copy of block 5: the manager merges
+		// the cached confirm into that copy, whose insertion then fails because the first copy wins.
+		cs.Peers = []PeerSpec{{Deputy: 0}, {Deputy: -1}}
+		cs.DeferServe = true
+		for i := 0; i < n; i++ {
+			if i == n-1 {
+				cs.Twin = append(cs.Twin, []int{0})
+			} else {
+				cs.Twin = append(cs.Twin, nil)
+			}
+		}
+		cs.Steps = append(cs.Steps, blk(0, 1, 2, 3), blk(1, 5), Step{Kind: "tick"}, blk(0, 4), Step{Kind: "tick"}, Step{Kind: "pause", Ms: 2},
+			Step{Kind: "confirm", Peer: 0, Block: n - 1, Sig: 0}, Step{Kind: "pause", Ms: 3}, blk(1, 5))
 	}
 	return cs, nil
 }
